@@ -19,6 +19,7 @@ import (
 	"encoding/json"
 	"errors"
 	"fmt"
+	"hash/fnv"
 	"io"
 	"log/slog"
 	"os"
@@ -29,6 +30,7 @@ import (
 	"strings"
 	"sync"
 	"sync/atomic"
+	"time"
 
 	"reduction.dev/reduction/dkv"
 	"reduction.dev/reduction/dkv/kv"
@@ -74,6 +76,7 @@ type opJ struct {
 	Hi   int      `json:"hi,omitempty"`
 	Nb   string   `json:"nb,omitempty"` // restore: neighbour script: "" | needs | free | err | slow-needs | slow-free | slow-err | live:<db>
 	N    int      `json:"n,omitempty"`  // drain: maximum number of steps (0 = all)
+	ID2  uint64   `json:"id2,omitempty"` // race: the checkpoint whose list save is issued while the first one is inside its file commit
 	Srcs []int    `json:"srcs,omitempty"` // restore: the databases whose handles of checkpoint id are restored together (composite)
 	Fail int      `json:"fail,omitempty"` // retain / step: storage fault during this operation: 1 = the Save (checkpoints file / WAL / first table of the flush) fails, 2 = a WAL delete of Save's Destroy fails
 }
@@ -453,9 +456,33 @@ type neighbour struct {
 	script string
 	mu     sync.Mutex
 	asked  []string
+	twin   chan bool // script "+late": this neighbour's answer is handed to a second, slower neighbour
+}
+
+// lateNeighbour is a second neighbour that does not need the table and answers late: after the first neighbour has answered and,
+// when that answer was a claim, after the claim has cancelled the other calls - it then still completes with a clean "not needed"
+// instead of failing with the cancellation.
+type lateNeighbour struct {
+	proto.UnimplementedOperator
+	from chan bool
+}
+
+func (l *lateNeighbour) NeedsTable(ctx context.Context, uri string) (bool, error) {
+	if claimed := <-l.from; claimed {
+		<-ctx.Done()
+	}
+	return false, nil
 }
 
 func (n *neighbour) NeedsTable(ctx context.Context, uri string) (bool, error) {
+	a, err := n.answer(ctx, uri)
+	if n.twin != nil {
+		n.twin <- a
+	}
+	return a, err
+}
+
+func (n *neighbour) answer(ctx context.Context, uri string) (bool, error) {
 	if n.owner.fs.dead.Load() {
 		return true, nil
 	}
@@ -602,9 +629,15 @@ type ckptDocJ struct {
 	LastSeqNum uint64 `json:"last_seq_num"`
 }
 
+type fsig struct {
+	F fname
+	H uint64
+}
+
 type handleObs struct {
 	ID      uint64
 	Dir     int
+	Sigs    []fsig // FNV-1a of the contents of every existing WAL and table file of the document
 	Present bool
 	Wal     []fname
 	After   uint64
@@ -644,7 +677,9 @@ func (w *world) observeHandles() []handleObs {
 					for _, wl := range d.WALs {
 						f, _ := parsePath(wl.URI)
 						ho.Wal = append(ho.Wal, f)
-						ho.After = wl.After
+						if len(ho.Wal) == 1 {
+							ho.After = wl.After
+						}
 						if !w.root.Exists(uriPath(wl.URI)) {
 							ho.Missing = append(ho.Missing, f)
 						}
@@ -660,6 +695,37 @@ func (w *world) observeHandles() []handleObs {
 					}
 					sortNames(ho.Tables)
 					sortNames(ho.Missing)
+					var uris []string
+					for _, wl := range d.WALs {
+						uris = append(uris, wl.URI)
+					}
+					for _, lv := range d.Levels {
+						for _, t := range lv {
+							uris = append(uris, t.URI)
+						}
+					}
+					sort.Strings(uris)
+					for i, u := range uris {
+						if i > 0 && uris[i-1] == u {
+							continue
+						}
+						if b, err := io.ReadAll(&storage.Cursor{File: w.root.Open(u)}); err == nil {
+							hsh := fnv.New32a()
+							hsh.Write(b)
+							f, _ := parsePath(u)
+							ho.Sigs = append(ho.Sigs, fsig{f, uint64(hsh.Sum32())})
+						}
+					}
+					sort.Slice(ho.Sigs, func(a, b int) bool {
+						x, y := ho.Sigs[a].F, ho.Sigs[b].F
+						if x.Dir != y.Dir {
+							return x.Dir < y.Dir
+						}
+						if x.Kind != y.Kind {
+							return x.Kind < y.Kind
+						}
+						return x.Num < y.Num
+					})
 				}
 			}
 		}
@@ -669,7 +735,11 @@ func (w *world) observeHandles() []handleObs {
 }
 
 func (h handleObs) coq() string {
-	return fmt.Sprintf("mkHObs %d %d %s %s %d %d %s %s", h.ID, h.Dir, hx.CoqBool(h.Present), coqNames(h.Wal), h.After, h.LastSeq, coqNames(h.Tables), coqNames(h.Missing))
+	sg := make([]string, len(h.Sigs))
+	for i, x := range h.Sigs {
+		sg[i] = hx.CoqPair(x.F.coq(), fmt.Sprint(x.H))
+	}
+	return fmt.Sprintf("mkHObs %d %d %s %s %s %d %d %s %s", h.ID, h.Dir, hx.CoqList(sg, "fname * N"), hx.CoqBool(h.Present), coqNames(h.Wal), h.After, h.LastSeq, coqNames(h.Tables), coqNames(h.Missing))
 }
 
 type liveObs struct {
@@ -1156,8 +1226,15 @@ func (r *runner) restore(o opJ) error {
 		hs = []*handleRec{w.handles[hkey{o.ID, slots[0]}]}
 		composite = len(slots) > 1
 	}
-	if composite {
+	if composite && len(o.Srcs) == 0 {
 		o.Same = false
+	}
+	for _, ho := range w.observeHandles() {
+		for _, x := range hs {
+			if ho.ID == x.id && ho.Dir == w.slots[x.slot].dir && len(ho.Wal) > 1 {
+				return nil // the document was rewritten as a composite by an in-place redeploy: restoring it again together with its parts is not generated
+			}
+		}
 	}
 	h := hs[0]
 	if err := r.drainOthers(nil); err != nil {
@@ -1183,9 +1260,17 @@ func (r *runner) restore(o opJ) error {
 	}
 	if o.Hi > 0 {
 		s.lo, s.hi = o.Lo, o.Hi
+		late := strings.HasSuffix(o.Nb, "+late")
+		o.Nb = strings.TrimSuffix(o.Nb, "+late")
 		s.nb = &neighbour{w: w, owner: s, script: o.Nb}
 		var nbs []operator.VerifNeighbor
-		if o.Nb != "" {
+		if o.Nb != "" && late {
+			// two neighbours: the scripted one and a slower one whose clean "not needed" arrives after the first answer
+			s.nb.twin = make(chan bool, 1)
+			nbs = append(nbs, operator.VerifNeighbor{KeyGroupRange: partitioning.KeyGroupRange{Start: 0, End: 65536}, Operator: s.nb})
+			nbs = append(nbs, operator.VerifNeighbor{KeyGroupRange: partitioning.KeyGroupRange{Start: 0, End: 65536}, Operator: &lateNeighbour{from: s.nb.twin}})
+			r.tag("two-neighbours-late-clean-answer")
+		} else if o.Nb != "" {
 			// the other operators of the assembly hold the complement of this key-group range
 			if o.Lo > 0 {
 				nbs = append(nbs, operator.VerifNeighbor{KeyGroupRange: partitioning.KeyGroupRange{Start: 0, End: o.Lo}, Operator: s.nb})
@@ -1216,7 +1301,10 @@ func (r *runner) restore(o opJ) error {
 		for i, x := range hs {
 			dirs[i] = fmt.Sprint(w.slots[x.slot].dir)
 		}
-		restoreOp = fmt.Sprintf("ORestoreM %d %d %s %s %s", s.idx, o.ID, hx.CoqList(dirs, "N"), ownC, nbC)
+		restoreOp = fmt.Sprintf("ORestoreM %d %d %s %s %s %s", s.idx, o.ID, hx.CoqList(dirs, "N"), hx.CoqBool(o.Same), ownC, nbC)
+		if o.Same {
+			r.tag("restore-composite-into-first-handles-directory")
+		}
 		if len(hs) > 1 {
 			r.tag("restore-composite")
 		}
@@ -1298,6 +1386,167 @@ func (r *runner) restore(o opJ) error {
 		r.tag("restore-probe-while-source-lives")
 		r.emit(stepOut{op: fmt.Sprintf("OCrash %d", s.idx)})
 	}
+	return nil
+}
+
+// race: the list save of checkpoint o.ID is parked INSIDE the commit of the checkpoints file (after it took its view of the list);
+// meanwhile a second save of the same database is issued - the list save of checkpoint o.ID2, or a retention update o.IDs (with an
+// optional storage fault on ITS save). In the code as it is the second one waits for the first; the harness gives it a bounded time
+// to prove otherwise (if it completes while the first is parked, the saves overlapped), then lets the first one commit. The outcome
+// of a correct implementation does not depend on that time. One observation is emitted for both steps.
+func (r *runner) race(o opJ) error {
+	w := r.w
+	s := r.slot(o.DB)
+	if s == nil {
+		return nil
+	}
+	ta := s.ckpts[o.ID]
+	if ta == nil || ta.point != "listsave" {
+		return nil
+	}
+	retain := len(o.IDs) > 0
+	if !retain {
+		// the second checkpoint is taken while the first one is inside its commit: its id must be new
+		if o.ID2 == 0 || o.ID2 == o.ID || s.ids[o.ID2] || len(s.ckpts) != 1 {
+			return nil
+		}
+	} else {
+		// the same preconditions as for a retention update
+		var newest uint64
+		kept := 0
+		for _, k := range o.IDs {
+			newest = max(newest, k)
+			if s.ids[k] {
+				kept++
+			}
+		}
+		if kept == 0 {
+			return nil
+		}
+		for id := range s.ckpts {
+			listed := id > newest
+			for _, k := range o.IDs {
+				listed = listed || k == id
+			}
+			if !listed {
+				return nil
+			}
+		}
+	}
+	if err := r.drainOthers(s); err != nil {
+		return err
+	}
+	// A goes into its file commit
+	s.fs.gateRel = make(chan struct{})
+	s.fs.gateCk.Store(true)
+	waitA := s.waits[o.ID]
+	delete(s.waits, o.ID)
+	delete(s.ckpts, o.ID)
+	close(ta.gate)
+	<-s.fs.gateArr
+	// B is issued meanwhile
+	type res struct {
+		h   recovery.CheckpointHandle
+		err error
+	}
+	bDone := make(chan res, 1)
+	var secondOp string
+	if !retain {
+		// Checkpoint(id2): locked part, WAL save, then its list save is issued
+		s.ids[o.ID2] = true
+		r.lastCkpt[s.idx] = append(r.lastCkpt[s.idx], o.ID2)
+		waitB := s.db.Checkpoint(o.ID2)
+		if err := w.expect(1); err != nil {
+			return err
+		}
+		tb := s.ckpts[o.ID2]
+		close(tb.gate)
+		if err := w.expect(1); err != nil {
+			return err
+		}
+		tb = s.ckpts[o.ID2]
+		delete(s.ckpts, o.ID2)
+		close(tb.gate)
+		go func() { h, err := waitB(); bDone <- res{h, err} }()
+		secondOp = ""
+	} else {
+		if o.Fail == 1 {
+			s.fs.armSave("ck") // A is already past the fault check: this hits the retention update's own save
+		}
+		ids := make([]string, len(o.IDs))
+		for i, id := range o.IDs {
+			ids[i] = fmt.Sprint(id)
+		}
+		go func() {
+			var err error
+			func() {
+				defer func() {
+					if p := recover(); p != nil {
+						err = fmt.Errorf("panic: %v", p)
+					}
+				}()
+				err = s.db.UpdateRetainedCheckpoints(o.IDs)
+			}()
+			bDone <- res{err: err}
+		}()
+		if o.Fail == 1 {
+			secondOp = fmt.Sprintf("ORetainF %d %s 1", s.idx, hx.CoqList(ids, "N"))
+		} else {
+			secondOp = fmt.Sprintf("ORetain %d %s", s.idx, hx.CoqList(ids, "N"))
+		}
+		var newest uint64
+		for _, k := range o.IDs {
+			newest = max(newest, k)
+		}
+		for id := range s.ids {
+			found := id > newest
+			for _, k := range o.IDs {
+				found = found || k == id
+			}
+			if !found {
+				delete(s.ids, id)
+			}
+		}
+	}
+	var rb *res
+	select {
+	case x := <-bDone:
+		rb = &x
+		r.tag("race-second-save-overtook-the-parked-one")
+	case <-time.After(60 * time.Millisecond):
+	}
+	// A commits
+	close(s.fs.gateRel)
+	ha, errA := waitA()
+	if rb == nil {
+		x := <-bDone
+		rb = &x
+	}
+	s.fs.disarm()
+	w.log.take()
+	if errA == nil {
+		w.handles[hkey{o.ID, s.idx}] = &handleRec{id: o.ID, uri: ha.URI, slot: s.idx}
+	}
+	var ro *readObs
+	if !retain {
+		if rb.err == nil {
+			w.handles[hkey{o.ID2, s.idx}] = &handleRec{id: o.ID2, uri: rb.h.URI, slot: s.idx}
+		}
+	} else if rb.err != nil {
+		ro = &readObs{Outcome: 1, Msg: rb.err.Error()}
+	}
+	r.noteWork(s)
+	r.tag("race-save-parked-inside-file-commit")
+	if retain {
+		r.tag("race-retention-update-during-save")
+	}
+	if !retain {
+		r.tag("race-second-checkpoint-during-save")
+		r.emit(stepOut{op: fmt.Sprintf("OSeq (OCkpt %d %d) (OSeq (OStepCkpt %d %d) (OSeq (OStepCkpt %d %d) (OStepCkpt %d %d)))",
+			s.idx, o.ID2, s.idx, o.ID2, s.idx, o.ID, s.idx, o.ID2), read: ro})
+		return nil
+	}
+	r.emit(stepOut{op: fmt.Sprintf("OSeq (OStepCkpt %d %d) (%s)", s.idx, o.ID, secondOp), read: ro})
 	return nil
 }
 
@@ -1619,6 +1868,10 @@ func execute(c *hx.Case) (*hx.Result, error) {
 			}
 		case "restore":
 			if err := r.restore(o); err != nil {
+				return fail(err)
+			}
+		case "race":
+			if err := r.race(o); err != nil {
 				return fail(err)
 			}
 		case "open":
